@@ -31,7 +31,7 @@ LEVEL_TEXT = ("Exploration: the skip-unknown-tag logic is a few lines in _conver
               "probed (thorough) with all insertion kinds, on both levels.")
 LEVEL_NOTE = "Trusts the generator's documents and modelwalk; the reference result is the library's own conversion of the undisturbed document (metamorphic oracle), whose fidelity is C01/C03's business."
 DESIGN_REF = "DESIGN.md §3 C07"
-MIN_COUNTERS = {"quick": {"etree_insertions": 15000, "text_insertions": 3000, "classes": 380, "between_list_members": 200}, "thorough": {"etree_insertions": 300000, "text_insertions": 40000, "classes": 380}}
+MIN_COUNTERS = {"quick": {"etree_insertions": 15000, "text_insertions": 3000, "classes": 380, "between_list_members": 200}, "thorough": {"etree_insertions": 250000, "text_insertions": 30000, "classes": 380}}
 
 V1HDR = "OFXHEADER:100\r\nDATA:OFXSGML\r\nVERSION:160\r\nSECURITY:NONE\r\nENCODING:UNICODE\r\nCHARSET:NONE\r\nCOMPRESSION:NONE\r\nOLDFILEUID:NONE\r\nNEWFILEUID:NONE\r\n\r\n"
 KINDS = ["unknown-data", "unknown-empty", "unknown-agg", "unknown-agg-parent-children", "known-elsewhere-agg", "vendor-data", "vendor-agg", "vendor-agg-parent-children",
